@@ -93,6 +93,15 @@ def r1(ctx, lib):
                   'a path from the callback\'s Err edge reaches the return at bb%s (line %s) without rename(tmp->path)' % (off, b.blocks[off]['term']['line'] if off is not None else '?'))
         rv = return_variants_from(b, e)
         ctx.check('Ok' not in rv and 'Err' in rv, rule, SR + '|b:err-returned', cb.where(), 'the Err edge returns Err', 'the Err edge can return %s' % sorted(rv))
+    # (e) once the original has been renamed away, no exit leaves it stranded: every path from the
+    # forward rename's success edge to a return passes the roll-back rename or the callback's Ok edge
+    okb = set(swc['ok'])
+    if sw is not None:
+        for o in sw['ok']:
+            okp, off = b.must_pass(o, lambda x: x in back_bbs or x in okb)
+            ctx.check(okp, rule, SR + '|e:no-stranded-exit', f.where(), 'after rename(path->tmp) every return is preceded by rename(tmp->path) or by a successful callback',
+                      'a path returns (bb%s, line %s) after rename(path->tmp) without restoring the original and without the callback having succeeded'
+                      % (off, b.blocks[off]['term']['line'] if off is not None else '?'))
     # roll-back failure is logged
     for c in back:
         cat, det = err_handling(b, c)
